@@ -125,6 +125,7 @@ class C11(Prop):
     theorems = ["EaselModel.Props.C11." + t for t in (
         "score2bin_interval", "bins_partition", "add_never_faults", "add_counts_once", "histogram_accounts", "bookkeeping_true",
         "sorted_flag_sound", "tail_query_agrees", "rank_query_agrees", "tailmass_query_agrees",
+        "settail_agrees_with_raw_data", "declare_censoring_agrees", "lognormal_fit_closed_form", "lognormal_mu_is_maximiser",
         "exp_fit_closed_form", "exp_fit_is_maximiser", "gumbel_mu_is_maximiser", "lawless_is_derivative", "gumbel_complete_fit_stationary",
         "gumbel_censored_fit_stationary", "gumbel_loc_fits_closed_form", "gumbel_fits_terminate")]
     claimed = True
@@ -590,7 +591,7 @@ class C11(Prop):
             elif name == "hround":
                 pass
         # cross-op checks that need the dump following a declaration
-        return self.check_declarations(ops, out, exact)
+        return self.check_declarations(ops, out, exact, vals)
 
     def exact_bin(self, x, bmin, w):
         t = (Fraction(x) - bmin) / w
@@ -642,7 +643,7 @@ class C11(Prop):
             if int(o["nc"]) != n or int(o["no"]) != n: return "Nc/No = %s/%s with n=%d on complete data" % (o["nc"], o["no"], n)
         return None
 
-    def check_declarations(self, ops, out, exact):
+    def check_declarations(self, ops, out, exact, vals=()):
         """SetTail / SetTailByMass / DeclareCensoring followed by a dump: the censoring bookkeeping agrees with the counts"""
         F = lambda w: Failure("monitor", w)
         for i, (op, l) in enumerate(zip(ops, out)):
@@ -665,30 +666,29 @@ class C11(Prop):
                 mass = fbits(kv(l)["mass"])
                 if nc and mass != no / nc: return F("%s: returned tail mass %r, No/Nc = %d/%d" % (name, mass, no, nc))
                 phi = Fraction(fbits(o["phi"]))
-                lb, ub = bmin + cmin * w, bmin + (cmin + 1) * w
-                tol = Fraction(1, 10**9) * (abs(lb) + abs(w)) if not exact else 0
-                clamped = cmin == 0 and phi <= bmin + tol       # threshold at/below bmin: cmin is clamped to the first bin (2487976)
+                tol = Fraction(1, 10**9) * (abs(phi) + abs(bmin) + abs(w)) if not exact else 0
+                # the threshold actually used is a bin boundary bmin + k*w; the uncensored bins start at k (never below bin 0)
+                k = (phi - bmin) / w
+                kr = round(k)
+                if abs(k - kr) * w > tol: return F("%s: phi=%r is not a bin boundary (bmin=%r, w=%r)" % (name, float(phi), float(bmin), float(w)))
+                if cmin != max(kr, 0): return F("%s: phi=%r is the lower bound of bin %d, but cmin=%d" % (name, float(phi), kr, cmin))
+                # censoring agrees with the raw data: z = number of accepted values <= phi (values within rounding distance of phi: either side)
+                sure = sum(1 for x in vals if Fraction(x) <= phi - tol)
+                maybe = sum(1 for x in vals if phi - tol < Fraction(x) <= phi + tol) if tol else 0
+                if not (sure <= z <= sure + maybe):
+                    return F("%s: z=%d values declared censored, but %d of the accepted values are <= phi=%r" % (op[:50], z, sure, float(phi)))
                 if name == "hsettail":
-                    req = fbits(a["phi"])
-                    if clamped:
-                        if phi - tol > Fraction(req): return F("SetTail(%r) moved the threshold up to %r" % (req, float(phi)))
-                        continue
-                    if not (abs(phi - lb) <= tol or (fbits(o["phi"]) == req and abs(phi - ub) <= tol)):
-                        return F("SetTail(%r): phi=%r is not a bound of bin cmin=%d (%r, %r]" % (req, float(phi), cmin, float(lb), float(ub)))
-                    if phi - tol > Fraction(req): return F("SetTail(%r) moved the threshold up to %r" % (req, float(phi)))
-                    # exact-arithmetic statement only where binary64 evaluates (phi-bmin)/w exactly (phi on the dyadic grid w/8); otherwise L0
-                    t8 = (Fraction(req) - bmin) / w * 8
-                    if exact and t8.denominator == 1 and abs(t8) < 2**40 and not (lb < Fraction(req) <= ub):
-                        return F("SetTail(%r): cmin=%d is not the bin containing the threshold" % (req, cmin))
+                    req = Fraction(fbits(a["phi"]))
+                    if phi - tol > req: return F("SetTail(%r) moved the threshold up to %r" % (float(req), float(phi)))
+                    # (a requested threshold within rounding distance above a boundary may be binned below it: L0)
+                    if req - phi >= w + Fraction(1, 10**9) * (abs(phi) + abs(bmin) + abs(w)): return F("SetTail(%r): threshold lowered by a whole bin or more, to %r" % (float(req), float(phi)))
                 else:
                     p = fbits(a["p"])
-                    if clamped: continue
-                    if abs(phi - lb) > tol: return F("SetTailByMass: phi=%r is not the lower bound of bin cmin=%d" % (float(phi), cmin))
                     above = sum(c for b, c in obs.items() if b > cmin)
                     if n and 0 < p <= 1:
                         if not (no >= p * n * (1 - 1e-12)): return F("SetTailByMass(%r): tail holds %d of %d values, less than the requested mass" % (p, no, n))
-                        if cmin in obs or True:
-                            if above >= p * n * (1 + 1e-12) and above > 0: return F("SetTailByMass(%r): cutoff bin %d is not the highest satisfactory one (%d values above it already suffice)" % (p, cmin, above))
+                        if above >= p * n * (1 + 1e-12) and above > 0 and cmin in obs:
+                            return F("SetTailByMass(%r): cutoff bin %d is not the highest satisfactory one (%d values above it already suffice)" % (p, cmin, above))
             else:
                 zz = int(a["z"])
                 if z != zz or nc != n + zz or no != n or o["ds"] != "true" or o["done"] != "1" or o["phi"] != a["phi"] or cmin != int(o["imin"]):
